@@ -187,8 +187,7 @@ theorem capture_free_partial (c : Cfg) (ok : CfgOk c) (ν : Naming) (t : Tree)
   intro o ho
   exact (resolve_ok (renameForest c ν t.toForest) t.toForest hall o ho).1
 
-/-- the usual case — no `with`, no `KeepVarNames`, no class static block: every scope except the global one
-    is renamed -/
+/-- the usual case — no `with`, no `KeepVarNames`: every scope except the global one is renamed -/
 theorem capture_free (c : Cfg) (ok : CfgOk c) (ν : Naming) (t : Tree)
     (hwf : wfTree t = true) (hroot : t.root.rename = false) (hall : allRenamed t.children = true)
     (hin : inputOkScope ν t.root t.children = true) :
@@ -283,7 +282,7 @@ theorem toplevel_names_kept (c : Cfg) (ν : Naming) (keep : Bool) (t : Tree)
 
 /-- the call sites of `renameScope` in `/repo/js` (regenerated): block, `for`, `for-in`, `for-of`, `switch`,
     `try` body / `catch` / `finally`, statement-or-block bodies, function declarations and expressions, methods,
-    arrow functions — and nothing else -/
+    arrow functions, class static blocks (since fix 1b16362) — and nothing else -/
 def expectedSites : List (String × String × String) := [
   ("minifyStmt", "*js.BlockStmt", "stmt.Scope"),
   ("minifyStmt", "*js.ForStmt", "stmt.Body.Scope"),
@@ -297,7 +296,8 @@ def expectedSites : List (String × String × String) := [
   ("minifyFuncDecl", "-", "decl.Body.Scope"),
   ("minifyFuncDecl", "-", "decl.Body.Scope"),
   ("minifyMethodDecl", "-", "decl.Body.Scope"),
-  ("minifyArrowFunc", "-", "decl.Body.Scope")]
+  ("minifyArrowFunc", "-", "decl.Body.Scope"),
+  ("minifyClassDecl", "-", "item.StaticBlock.Scope")]
 
 /-- **public names are kept (structural part).**  The global scope (`ast.Scope` / `ast.BlockStmt.Scope` in
     `Minify`) is never handed to `renameScope`: the regenerated list of call sites is the expected one, none of
@@ -308,7 +308,7 @@ theorem public_names_kept :
     (Verif.Gen.RenameSites.sites.all fun s =>
       s.1 != "Minify" &&
       ["stmt.Scope", "stmt.Body.Scope", "stmt.Catch.Scope", "stmt.Finally.Scope", "blockStmt.Scope",
-        "decl.Body.Scope"].contains s.2.2) = true ∧
+        "decl.Body.Scope", "item.StaticBlock.Scope"].contains s.2.2) = true ∧
     Verif.Gen.RenameSites.guardFirst = true ∧
     Verif.Gen.RenameSites.newRenamerArgs = ["!o.KeepVarNames", "!o.useAlphabetVarNames"] := by
   refine ⟨?_, ?_, ?_, ?_⟩ <;> decide
